@@ -192,7 +192,7 @@ func tssWorld(prop string) simcore.World {
 		if os.Getenv("SIM_TIER") == "thorough" && r.Index == 0 && os.Getenv("SIM_REPLAY") == "" {
 			return tssCapacityRun(r, prop)
 		}
-		if prop == "C06" && r.Index%16 == 7 {
+		if prop == "C06" && r.Index%8 == 7 {
 			// which client id a listener derives from a packet is listener code: a run with real
 			// listeners and scripted clients of distinct identities (worlds/c06_identity.go)
 			return c06IdentityWorld(r)
